@@ -208,7 +208,7 @@ def r34_2(ctx, m):
                 # mu + beta_last**2 * sum(leading_evecs[-1,:]**2 / where(separated, leading_evals - mu, 1.0))
                 bl = [s_ for s_ in walk_no_nested(ru.node) if isinstance(s_, ast.Assign) and _n(s_.value) == f"{of}[-1]"]
                 bln = src(bl[0].targets[0]) if bl else "?"
-                okk = det.startswith(f"{mu}+{bln}**2*jnp.sum(") and "[-1,:]**2/" in det and f"-{mu}" in det and \
+                okk = (det.startswith(f"{mu}+{bln}**2*jnp.sum(") or (det.startswith(f"{mu}+jnp.sum(") and det.endswith(f"*{bln}**2"))) and "[-1,:]**2/" in det and f"-{mu}" in det and \
                     _n(c.func.value.slice) in ("m-1", "-1", f"{al}.shape[0]-1")
                 lead = [s_ for s_ in walk_no_nested(inner[0]) if isinstance(s_, ast.Assign) and isinstance(s_.value, ast.Call) and call_name(s_.value) == "_dense_tridiag"]
                 okk = okk and any(_n(s_.value) == f"_dense_tridiag({al}[:-1],{of}[:-1])" for s_ in lead)
@@ -220,7 +220,8 @@ def r34_2(ctx, m):
         t = _n(rr[0].value) if rr else ""
         n0 = sl.params()[1]
         est = [src(s_.targets[0]) for s_ in walk_no_nested(sl.node) if isinstance(s_, ast.Assign) and "vmap" in src(s_.value) and "_gauss_unit" in src(s_.value)]
-        okk = len(est) == 1 and t.startswith(f"jnp.asarray({n0},") and t.endswith(f"*jnp.mean({est[0]})")
+        okk = len(est) == 1 and ((t.startswith(f"jnp.asarray({n0},") and t.endswith(f"*jnp.mean({est[0]})")) or
+                                 (t.startswith(f"jnp.mean({est[0]})*jnp.asarray({n0},")))
         dg = {src(s_.targets[0]): _n(s_.value) for s_ in walk_no_nested(sl.node) if isinstance(s_, ast.Assign) and "diagonal" in src(s_.value)}
         okk = okk and sorted(("offset=1" in v) for v in dg.values()) == [False, True]
         ctx.check("R34.2", f"{sl.key}::trace estimate = dimension * mean(unit quadratures); alpha = diagonal, off = first off-diagonal", okk, t[:120], sl)
@@ -359,8 +360,9 @@ def r34_3(ctx, m):
                 if dn.kind == "stmt" and isinstance(dn.ast, ast.Assign):
                     e = inline_at(cfg, rd, dn.id, dn.ast.value, depth=2)
                     eig.append(_n(e))
-            want = ("-0.5*np.sum(np.log(eigenvalues))", "-0.5*np.sum(log_np(eigenvalues))")
-            okt = any(x in want for x in eig)
+            from ..terms import canon
+            want = tuple(canon(w_) for w_ in ("-0.5*np.sum(np.log(eigenvalues))", "-0.5*np.sum(log_np(eigenvalues))"))
+            okt = any(canon(x) in want for x in eig)
             if not okt and not any("(eigenvalues)" in x for x in eig):
                 okt = None
             ctx.check("R34.3", f"{fi.key}::tr_log_lat_cov = -1/2 sum(log eigenvalues) on the eigen-decomposition path", okt, str(eig)[:200], fi)
@@ -385,8 +387,9 @@ def r34_3(ctx, m):
                 ctx.check("R34.3", f"{fi.key}::with analytic prior: prior term = (trace_inv_total + |mean|^2)/2, energy = likelihood only", okq,
                           f"prior {p_str(prf) if prf is not None else d}; energy {en}", fi)
         # lower error of the eigsh path
-        low = [n for n in cfg.nodes if n.kind == "stmt" and isinstance(n.ast, ast.Assign) and "np.min(log_eigenvalues)" in _n(n.ast.value) and "0.5*" in _n(n.ast.value)]
-        okl = len(low) >= 1 and all(_n(n.ast.value) == "0.5*(n_relevant_dofs-log_eigenvalues.size)*np.min(log_eigenvalues)" for n in low)
+        from ..terms import canon
+        low = [n for n in cfg.nodes if n.kind == "stmt" and isinstance(n.ast, ast.Assign) and "np.min(log_eigenvalues)" in _n(n.ast.value) and "0.5" in _n(n.ast.value)]
+        okl = len(low) >= 1 and all(canon(n.ast.value) == canon("0.5*(n_relevant_dofs-log_eigenvalues.size)*np.min(log_eigenvalues)") for n in low)
         if not low:
             okl = None
         ctx.check("R34.3", f"{fi.key}::lower error = 1/2 (relevant dofs - #eigenvalues) * min(log eigenvalue)", okl, "; ".join(_n(n.ast.value) for n in low)[:200], fi)
